@@ -55,6 +55,8 @@ class Spec:
         self.extra_args = extra_args or {}
         self.libs = list(libs)
         self.timeout = timeout or {"quick": 600, "thorough": 7200}
+        if os.environ.get("VERIF_WORKER_TIMEOUT"):  # (testing aid: exercise the time-budget path)
+            self.timeout = {k: int(os.environ["VERIF_WORKER_TIMEOUT"]) for k in self.timeout}
         self.extra_objs = extra_objs
         self.custom = custom
         self.single_worker_parts = single_worker_parts
@@ -214,6 +216,17 @@ def run_check(spec, tier, seed, replay=None, verbose=False, workers_override=Non
             except Exception as e:  # truncated report
                 notes.append(f"{tag}: unreadable report ({e})")
         if rc == "timeout":
+            ff = report + ".firstfail"
+            if os.path.exists(ff) and not replay and not tag.startswith("timeoutcase"):
+                # the worker had found a failing case and was still shrinking it: replay the unshrunk case (3x inside the harness)
+                os.makedirs(faildir, exist_ok=True)
+                path = os.path.join(faildir, "unshrunk-%s-%s.case" % (tag, time.strftime("%H%M%S")))
+                shutil.copy(ff, path)
+                r2 = os.path.join(rundir, f"timeoutcase-{tag}.json")
+                rep2 = handle_worker(f"timeoutcase-{tag}", [exe.out, "--report", r2, "--replay", path] + common, r2,
+                                     os.path.join(rundir, f"timeoutcase-{tag}.log"), 600)
+                notes.append(f"{tag}: time budget exhausted while shrinking a failure; the unshrunk case was replayed")
+                return rep2
             notes.append(f"{tag}: time budget exhausted (inconclusive, not a violation)")
             return rep
         log_text = open(log, errors="replace").read() if os.path.exists(log) else ""
